@@ -664,7 +664,65 @@ func seqMap(s *simrt.Sim) {
 	checkMap(s, "New", m, model, u)
 	nops := 4 + s.Choose(9)
 	for i := 0; i < nops; i++ {
-		switch s.Weighted(5, 3, 1, 1, 2, 2, 1, 1, 1, 1) {
+		switch s.Weighted(5, 3, 1, 1, 2, 2, 1, 1, 1, 1, 2) {
+		case 10:
+			// the consumer deletes the key it is standing on (and optionally a key still ahead) in the middle of the
+			// iteration: every other live key must still be visited, in order; a key deleted before it was reached is not
+			if len(model) == 0 {
+				continue
+			}
+			rev := s.Choose(2) == 1
+			order := clone2(model)
+			if rev {
+				order = kvRev(order)
+			}
+			at := s.Choose(len(order))
+			ahead := -1
+			// (not the immediate successor: the element being deleted keeps its link to it, so the unchanged code visits that
+			// key although it was just deleted — an edge the statement does not clearly decide, not judged here)
+			if at+2 < len(order) && s.Choose(2) == 1 {
+				ahead = at + 2 + s.Choose(len(order)-at-2)
+			}
+			var want, got []kv
+			for j, e := range order {
+				if j != ahead {
+					want = append(want, e)
+				}
+			}
+			f := func(k E, v uint8) bool {
+				got = append(got, kv{k, v})
+				if len(got) > 64 {
+					bad("Map-ForEach-delete-inside", "iteration does not terminate")
+				}
+				if k == order[at].k {
+					m.Delete(k)
+					if ahead >= 0 {
+						m.Delete(order[ahead].k)
+					}
+				}
+				return true
+			}
+			var completed bool
+			if rev {
+				completed = m.ForEachReverse(f)
+			} else {
+				completed = m.ForEach(f)
+			}
+			s.Logf("ForEach(reverse=%v) deleting current key %d (and ahead index %d) -> %v", rev, order[at].k, ahead, got)
+			if !kvEq(got, want) || !completed {
+				bad("Map-ForEach-delete-inside", "ForEach(reverse=%v) over %v whose consumer deletes the current key %d (and the key at iteration index %d) visited %v, expected %v (completed=%v)", rev, order, order[at].k, ahead, got, want, completed)
+			}
+			var nm []kv
+			for _, e := range model {
+				if e.k == order[at].k || (ahead >= 0 && e.k == order[ahead].k) {
+					continue
+				}
+				nm = append(nm, e)
+			}
+			if nm == nil {
+				nm = []kv{}
+			}
+			model = nm
 		case 0:
 			k, v := E(s.Choose(u)), uint8(1+s.Choose(5))
 			pv, existed := m.Set(k, v)
